@@ -90,6 +90,7 @@ class Box(object):
         devs[b'Z'] = None
         self.sess = Sess(mount=self.sb.path(self.roots[self.cur]), devices=devs, current_device=self.cur, peek_values={})
         self.sess.impl.queues.tick = 0       # FILES sleeps one tick per four lines
+        self.sess.autocls = False            # every statement starts with LOCATE 1,1 instead (CLS costs ~10 ms)
         self.devs = {k: self.sess.impl.files.get_device(k + b':') for k in self.roots}
         self.need_pre = True
         self.taint = False
@@ -146,7 +147,7 @@ class Box(object):
         if path2 is not None:
             s.s.set_variable('Q$', path2)
         with fsmon.recording() as log:
-            r = s.ex(TEMPLATES[stmt], budget=400)
+            r = s.ex('LOCATE 1,1:' + TEMPLATES[stmt], budget=400)
         post = self.observe()
         e = {'stmt': stmt, 'path': list(path), 'od0': pre['od'], 'od1': post['od'],
              'ops': [{'op': o, 'path': fsmon.comps(self.top, rp), 'kind': k} for (o, rp, k) in log]}
@@ -311,21 +312,38 @@ def run(ctx):
     # 1. design: exhaustive bounded model check (+ in the thorough tier: all statement forms, two drives, nested mount,
     #    evolving file system, and the as-coded configuration in which TLC must find the reproduced escape)
     dev = bool(os.environ.get('C27_DEV'))
-    if not dev:
-        model_check(ctx, 'DosPath_MC', ctx.pick('DosPath_MC.cfg', 'DosPath_MC_big.cfg'), ctx.pick(8, 16))
-    if not quick and not dev:
-        for cfg in ('DosPath_MC_all.cfg', 'DosPath_MC_2drv.cfg', 'DosPath_MC_nested.cfg', 'DosPath_MC_dyn.cfg'):
-            model_check(ctx, 'DosPath_MC', cfg, 16)
-    if not dev:
+    bg, bg_err = [], []
+
+    def background(fn):
+        def wrap():
+            try:
+                fn()
+            except BaseException as ex:  # noqa
+                bg_err.append(ex)
+        t = threading.Thread(target=wrap)
+        t.start()
+        bg.append(t)
+
+    def all_model_checks():
+        # (TLC runs are subprocesses: they proceed while this process drives the interpreter)
+        model_check(ctx, 'DosPath_MC', ctx.pick('DosPath_MC.cfg', 'DosPath_MC_big.cfg'), ctx.pick(8, 12))
+        if not quick:
+            for cfg in ('DosPath_MC_all.cfg', 'DosPath_MC_2drv.cfg', 'DosPath_MC_nested.cfg', 'DosPath_MC_dyn.cfg'):
+                model_check(ctx, 'DosPath_MC', cfg, 12)
         r = ctx.tlc('DosPath_MC', 'DosPath_MC_ascoded.cfg', workers=1, tag='ascoded (must fail)')
         if r['ok'] or 'CwdInside' not in (r['error'] or ''):
             raise core.MachineryError('selftest: TLC did not find the ".. " escape in the as-coded model: %s' % r['error'])
         ctx.cov['ascoded_counterexample_found'] = True
+    if not dev:
+        background(all_model_checks)
+    val = Validation(ctx)
     boxes = []
     # 2. spec -> code: replay every transition
     boxes.append(replay_model(ctx, 'DosPath_MC_emit.cfg', workers=4))
+    val.submit(boxes[-1])          # validated by TLC while the next arms are driven
     if not quick:
-        boxes.append(replay_model(ctx, 'DosPath_MC_emit_big.cfg', workers=12))
+        boxes.append(replay_model(ctx, 'DosPath_MC_emit_big.cfg', workers=4))
+        val.submit(boxes[-1])
     # 3. code -> spec
     # (a) every string over { \ . blank A } up to a length, as CHDIR / OPEN / FILES / KILL argument from three current directories
     box = Box(ctx, RICH_DIRS, RICH_FILES, RICH_ROOTS)
@@ -358,7 +376,7 @@ def run(ctx):
             for stmt in ('CHDIR', 'MKDIR', 'OPENO', 'FILES', 'OPENI', 'KILL', 'RMDIR', 'CHDIR'):
                 box.do(stmt, pre + pth, tag='drives')
     # (b) random histories inside the modelled fragment, file system and current directories evolving
-    nhist = ctx.pick(40, 600)
+    nhist = ctx.pick(40, 400)
     for h in range(nhist):
         box.restore(force=True)
         if h % 10 == 0:
@@ -376,7 +394,7 @@ def run(ctx):
                     continue
             box.do(stmt, p, q, tag='frag')
     # (c) garbage path strings x every statement x CHDIR histories x several drives (one nested)
-    nhist = ctx.pick(60, 1000)
+    nhist = ctx.pick(60, 700)
     for h in range(nhist):
         box.restore(force=True)
         if h % 10 == 0:
@@ -395,43 +413,68 @@ def run(ctx):
             box.do(stmt, p, q, tag='garbage')
     # behaviours validated: one per replayed transition (each starts in its own model state), one per enumeration start
     # directory / drive prefix, one per random history
-    ctx.cov['traces_validated_against_impl'] += ctx.cov.get('model_transitions_replayed', 0) + 3 + 8 + ctx.pick(40, 600) + nhist
+    ctx.cov['traces_validated_against_impl'] += ctx.cov.get('model_transitions_replayed', 0) + 3 + 8 + ctx.pick(40, 400) + nhist
     # 4. validation by TLC, one run per chunk, chunks in parallel
-    judge(ctx, boxes)
+    val.submit(box)
+    for t in bg:
+        t.join()
+    if bg_err:
+        raise bg_err[0]
+    report(ctx, boxes, val.finish())
     for b in boxes:
         b.close()
 
 
-def judge(ctx, boxes):
-    chunks = []
-    for b in boxes:
+class Validation(object):
+    """TLC trace validation of finished boxes: one TLC run per chunk of events, at most 8 at a time, in the background"""
+
+    def __init__(self, ctx):
+        self.ctx = ctx
+        self.chunks = []
+        self.results = {}
+        self.errors = []
+        self.threads = []
+        self.sem = threading.Semaphore(8)
+
+    def submit(self, b, size=3000):
         evs = b.events
-        size = 3000
         for i in range(0, len(evs), size):
             part = evs[i:i + size]
             js = [dict(e) for e, _ in part]
             if 'pre' not in js[0]:
                 # a chunk must start from an observed state: the previous event's observed state
                 js[0]['pre'] = prev_state(evs, i)
-            chunks.append((b, part, js))
-    results = [None] * len(chunks)
-    errors = []
-    sem = threading.Semaphore(8)
+            k = len(self.chunks)
+            self.chunks.append((b, part, js))
+            t = threading.Thread(target=self.work, args=(k,))
+            t.start()
+            self.threads.append(t)
 
-    def work(k):
-        b, part, js = chunks[k]
-        with sem:
+    def work(self, k):
+        b, part, js = self.chunks[k]
+        with self.sem:
             try:
-                results[k] = ctx.validate('DosPath_Trace', js, header=b.header(), name='c27_%d' % k)
-            except Exception as ex:  # noqa
-                errors.append(ex)
-    th = [threading.Thread(target=work, args=(k,)) for k in range(len(chunks))]
-    for t in th:
-        t.start()
-    for t in th:
-        t.join()
-    if errors:
-        raise errors[0]
+                self.results[k] = self.ctx.validate('DosPath_Trace', js, header=b.header(), name='c27_%d' % k)
+            except BaseException as ex:  # noqa
+                self.errors.append(ex)
+
+    def finish(self):
+        for t in self.threads:
+            t.join()
+        if self.errors:
+            raise self.errors[0]
+        return self.chunks, self.results
+
+
+def judge(ctx, boxes):
+    val = Validation(ctx)
+    for b in boxes:
+        val.submit(b)
+    report(ctx, boxes, val.finish())
+
+
+def report(ctx, boxes, done):
+    chunks, results = done
     nops = nout = 0
     bytag = {}
     for k, (b, part, js) in enumerate(chunks):
